@@ -94,6 +94,26 @@ MCEpsOf(d) ==
 
 MCPrim(n, x, env) == x     \* no string primitives in the integer family
 
+\* ---- cell abstraction lemma (justifies the rank projection of wide integer types, DESIGN.md 2.1):
+\* for declarations that only COMPARE values (bounds, clamp, to_k, `ne`), two neighbouring values that
+\* compare identically with every landmark of the declaration have outcomes of the same kind and the same
+\* error, and an accepted value is moved to the same place relative to the landmarks.
+OrderOnly(d) ==
+  /\ d.vmode # "custom"
+  /\ \A i \in DOMAIN d.san : d.san[i].fn \in {"clamp", "to_k"}
+  /\ \A i \in DOMAIN d.val : d.val[i].k # "predicate" \/ d.val[i].fn = "ne"
+MarksOf(d) == {d.val[i].b : i \in {j \in DOMAIN d.val : d.val[j].k \in BoundKinds}}
+               \cup UNION {NRange(d.san[i].p) : i \in DOMAIN d.san} \cup UNION {NRange(d.val[i].p) : i \in DOMAIN d.val}
+Sgn(a, b) == IF a < b THEN -1 ELSE IF a = b THEN 0 ELSE 1
+SameCell(d, v, w) == \A m \in MarksOf(d) : Sgn(v, m) = Sgn(w, m)
+CellLemma ==
+  (pc = "idle" /\ OrderOnly(D)) =>
+    \A v \in Dom(D.ty) \ {TMax(D.ty)} :
+      SameCell(D, v, v + 1) =>
+        LET a == DeclCtor(D, v, MEnv, CodeNanPolicy) b == DeclCtor(D, v + 1, MEnv, CodeNanPolicy) IN
+        /\ a.k = b.k /\ a.e = b.e
+        /\ (IsOk(a) => \A m \in MarksOf(D) : Sgn(OutVal(a), m) = Sgn(OutVal(b), m))
+
 \* one DECL row per declaration, printed from the initial states
 EmitDecl == (pc = "idle") => PrintT(<<"DECL", di, ToJson(D)>>)
 
